@@ -4,7 +4,7 @@
 import TB.Spec.ExportSpec
 import TB.Lemmas.RunC
 namespace TB
-
+open TB.RC
 /-- no fault point lies ahead of the current position in the log -/
 def NoFutureFaults (st : St) : Prop := ∀ idx ∈ st.faults, idx < st.ops.length
 
@@ -15,7 +15,25 @@ theorem C02_search_sound (H : Bytes → Bytes) (hash : Bytes) (loaded : List (Li
     ∃ picks, r = chosen ++ picks ∧ picks.length = loaded.length ∧
       (∀ k (hk : k < picks.length) (hl : k < loaded.length), picks[k] ∈ loaded[k]) ∧
       H (r.flatMap (·.2)) = hash := by
-  sorry
+  induction loaded generalizing chosen with
+  | nil =>
+    simp only [searchProduct] at h
+    split at h
+    · rename_i hh
+      cases h
+      exact ⟨[], by simp, rfl, fun k hk => (by cases hk), by simpa using hh⟩
+    · cases h
+  | cons cands rest ih =>
+    simp only [searchProduct] at h
+    obtain ⟨c, hc, hfc⟩ := firstM_option_some h
+    obtain ⟨picks, hr, hlen, hmem, hh⟩ := ih _ hfc
+    refine ⟨c :: picks, by rw [hr]; simp, by simp [hlen], ?_, hh⟩
+    intro k hk hl
+    cases k with
+    | zero => simpa using hc
+    | succ k =>
+      simp only [List.getElem_cons_succ]
+      exact hmem k (by simpa using hk) (by simpa using hl)
 
 /-- the product search is exhaustive: if any choice of one candidate per segment hashes to the piece hash,
     the search succeeds -/
@@ -24,27 +42,52 @@ theorem C02_search_complete (H : Bytes → Bytes) (hash : Bytes) (loaded : List 
     (hmem : ∀ k (hk : k < picks.length) (hl : k < loaded.length), picks[k] ∈ loaded[k])
     (hhash : H ((chosen ++ picks).flatMap (·.2)) = hash) :
     (searchProduct H hash loaded chosen).isSome = true := by
-  sorry
+  induction loaded generalizing chosen picks with
+  | nil =>
+    have : picks = [] := List.eq_nil_of_length_eq_zero hlen
+    subst this
+    simp only [List.append_nil] at hhash
+    simp [searchProduct, hhash]
+  | cons cands rest ih =>
+    cases picks with
+    | nil => simp at hlen
+    | cons c picks =>
+      simp only [searchProduct]
+      have hc : c ∈ cands := by
+        have := hmem 0 (by simp) (by simp)
+        simpa using this
+      refine firstM_option_isSome hc ?_
+      apply ih (chosen ++ [c]) picks (by simpa using hlen)
+      · intro k hk hl
+        have := hmem (k + 1) (by simpa using hk) (by simpa using hl)
+        simpa using this
+      · simpa using hhash
 
 /-- the single-file scan gives up only after every candidate has been read and none hashed to the piece hash -/
 theorem C02_single_complete (H : Bytes → Bytes) (hash : Bytes) (seg : WSeg) (st st' : St) (paths : List Path)
     (h : scanSingle H hash seg st paths = (st', .ok none)) :
     ∀ p ∈ paths, ∀ i, st.fs.look p = .file i → H (st.fs.readAt i seg.off seg.len) ≠ hash := by
-  sorry
+  exact scanSingle_none h
 
 /-- preloading keeps every distinct byte string the candidates supply (first supplier wins) -/
 theorem C02_preload_complete (seg : WSeg) (st st' : St) (paths : List Path)
     (acc r : List (Option Path × Bytes)) (h : preloadSeg seg st paths acc = (st', .ok r)) :
     (∀ x ∈ acc, x ∈ r) ∧
     ∀ p ∈ paths, ∀ i, st.fs.look p = .file i → ∃ x ∈ r, x.2 = st.fs.readAt i seg.off seg.len := by
-  sorry
+  obtain ⟨⟨extra, hex⟩, hall⟩ := preloadSeg_spec h
+  refine ⟨?_, hall⟩
+  intro x hx
+  rw [hex]
+  exact List.mem_append_left _ hx
 
 /-- the candidate index keeps one name of every file of the right length: an admissible candidate order names
     every inode of the candidate map -/
 theorem C02_index_keeps_inodes (e : TEntry) (m : List (Path × Nat)) (obs : List Path)
     (h : validSearches e m obs = true) :
     ∀ x ∈ m, ∃ p ∈ obs, ∃ y ∈ m, y.1 = p ∧ y.2 = x.2 := by
-  sorry
+  intro x hx
+  obtain ⟨p, hp, hy, _⟩ := validSearches_mem h x hx
+  exact ⟨p, hp, hy⟩
 
 /-- every regular file below a scan directory whose length is one of the wanted lengths is in the cache
     under that length (possibly under another name of the same path key) -/
@@ -52,7 +95,8 @@ theorem C02_scan_registers (fs : Fs) (c : Cache) (dir : Path) (lengths : List Na
     (hmem : (p, i) ∈ fs.files) (hdir : dir.length < p.length ∧ p.take dir.length = dir)
     (hlen : lengths.contains (fs.content i).length = true) :
     ∃ m, cacheGet (addByDirectory fs c dir lengths) (fs.content i).length = some m ∧ ∃ j, (p, j) ∈ m := by
-  sorry
+  rw [addByDirectory_eq]
+  exact foldl_registers fs dir lengths fs.files c p i hmem hdir hlen
 
 /-- piece level: if every candidate is a readable file, no fault lies ahead, and some choice of candidates
     (zeros for padding, nothing for empty files) assembles to a buffer with the piece hash, then the piece is
@@ -69,6 +113,78 @@ theorem C02_piece (H : Bytes → Bytes) (st : St) (w : Work)
           ∃ paths p i, seg.ent.searches = some paths ∧ p ∈ paths ∧ st.fs.look p = .file i
             ∧ part = st.fs.readAt i seg.off seg.len)) :
     (solvePiece H st w).2 ≠ .notFound := by
-  sorry
+  have _ := hnf
+  obtain ⟨parts, hplen, hphash, hparts⟩ := havail
+  -- no segment is rejected up front
+  have hnorej : (w.segs.any (fun s => !s.ent.isPad && s.ent.searches.isNone && s.len != 0)) = false := by
+    rw [Bool.eq_false_iff]
+    intro hrej
+    obtain ⟨s, hs, hcond⟩ := List.any_eq_true.1 hrej
+    obtain ⟨k, hk⟩ := List.getElem?_of_mem hs
+    have hklt : k < w.segs.length := (List.getElem?_eq_some_iff.1 hk).1
+    have hp : parts[k]? = some (parts[k]'(by omega)) := List.getElem?_eq_getElem _
+    simp only [Bool.and_eq_true, Bool.not_eq_true', bne_iff_ne, ne_eq, Option.isNone_iff_eq_none] at hcond
+    obtain ⟨paths, _, _, hsome, _⟩ := (hparts k s _ hk hp).2.2 hcond.1.1 hcond.2
+    rw [hcond.1.2] at hsome
+    cases hsome
+  unfold solvePiece
+  simp only [hnorej, Bool.false_eq_true, if_false]
+  split
+  · -- a single segment
+    rename_i seg hseg
+    have hpl : parts.length = 1 := by rw [hplen, hseg]; rfl
+    obtain ⟨part, rfl⟩ := List.length_eq_one_iff.1 hpl
+    have hpart := hparts 0 seg part (by rw [hseg]; rfl) rfl
+    have hH : H part = w.hash := by simpa using hphash
+    split
+    · rename_i hpad
+      rw [hpart.1 hpad] at hH
+      rw [if_pos (by simp [hH])]
+      simp
+    · rename_i hpad
+      have hpad : seg.ent.isPad = false := by simpa using hpad
+      split
+      · simp
+      · rename_i paths hs
+        split
+        · exact writeSegs_ne_notFound _ _ _ _
+        · rename_i st1 hscan
+          exfalso
+          have hnone := scanSingle_none hscan
+          by_cases hl : seg.len = 0
+          · cases paths with
+            | nil => exact hnonempty seg (by rw [hseg]; simp) hs
+            | cons p ps =>
+              obtain ⟨i, hi⟩ := hreadable seg (by rw [hseg]; simp) _ hs p (by simp)
+              have := hnone p (by simp) i hi
+              rw [hl, readAt_zero] at this
+              rw [hpart.2.1 hpad hl] at hH
+              exact this hH
+          · obtain ⟨paths', p, i, hs', hp, hi, hpp⟩ := hpart.2.2 hpad hl
+            rw [hs] at hs'
+            cases hs'
+            exact hnone p hp i hi (by rw [← hpp]; exact hH)
+        · simp
+        · simp
+  · -- several segments (or none)
+    split
+    · rename_i st1 loaded hpre
+      obtain ⟨hll, hcand⟩ := forall₂_getElem? (preload_spec hpre)
+      have hpick : ∀ (k : Nat) part cands, parts[k]? = some part → loaded[k]? = some cands →
+          ∃ x ∈ cands, x.2 = part := by
+        intro k part cands hp hc
+        have hklt : k < loaded.length := (List.getElem?_eq_some_iff.1 hc).1
+        have hs : w.segs[k]? = some (w.segs[k]'(by omega)) := List.getElem?_eq_getElem _
+        have hmem : w.segs[k]'(by omega) ∈ w.segs := List.getElem_mem _
+        exact cand_supplies (hcand k _ cands hs hc) (hreadable _ hmem) (hnonempty _ hmem) (hparts k _ part hs hp)
+      obtain ⟨picks, hpl, hpm, hpf⟩ := picks_of_cands parts loaded (by omega) hpick
+      have := C02_search_complete H w.hash loaded [] picks hpl hpm (by simpa [hpf] using hphash)
+      split
+      · exact writeSegs_ne_notFound _ _ _ _
+      · rename_i hnone
+        rw [hnone] at this
+        cases this
+    · simp
+    · simp
 
 end TB
